@@ -88,13 +88,14 @@ Fixpoint read_record (d : N) (st : rstate) (cur : bstr) (acc : list bstr) (input
       end
   end.
 
-Definition bom : bstr := [239; 187; 191].
-
-Definition strip_bom (s : bstr) : bstr :=
+(* strip_utf8_bom: the first read drops a leading EF BB BF *)
+Definition starts_with_bom (s : bstr) : bool :=
   match s with
-  | 239 :: 187 :: 191 :: r => r
-  | _ => s
+  | a :: b :: c :: _ => (a =? 239) && (b =? 187) && (c =? 191)
+  | _ => false
   end.
+
+Definition strip_bom (s : bstr) : bstr := if starts_with_bom s then skipn 3 s else s.
 
 Definition parse_csv (d : N) (s : bstr) : list bstr :=
   match read_record d StartRecord [] [] (strip_bom s) with
@@ -105,15 +106,9 @@ Definition parse_csv (d : N) (s : bstr) : list bstr :=
 (* ---------------------------------------------------------------- the class of the theorem *)
 Definition good_delim (d : N) : bool := negb (d =? b_q) && negb (d =? b_cr) && negb (d =? b_lf).
 
-Definition starts_with_bom (s : bstr) : bool :=
-  match s with 239 :: 187 :: 191 :: _ => true | _ => false end.
-
-(* the encoded text begins with EF BB BF: the first field is left unquoted and begins with these bytes *)
-Definition known_bom (d : N) (fs : list bstr) : bool :=
-  match fs with
-  | f :: _ => negb (needs_quotes d f) && starts_with_bom f
-  | [] => false
-  end.
+(* the known class: the encoded text begins with EF BB BF (for an ASCII delimiter: the first field is left
+   unquoted and begins with these bytes) *)
+Definition known_bom (d : N) (fs : list bstr) : bool := starts_with_bom (encode_csv d fs).
 
 (* ---------------------------------------------------------------- the VRL functions around them *)
 (* encode_csv: the empty array returns "" before the delimiter is looked at; parse_single_byte_delimiter *)
